@@ -2,7 +2,7 @@
    S = SF/BusSpec.v (eager association list + abstract LRU cache), M = SF/Bus.v (bus.py statement by statement),
    Gen/Gen_c17.v = Store._mtime_coherent/_mtime_update and the coherence decorators regenerated from store*.py. *)
 Require Import SF.Prelude SF.PySlice SF.BusSpec SF.Bus Gen.Gen_c17.
-Require Import Proofs.BusSpecFacts Proofs.BusSpecInv Proofs.BusRel Proofs.BusUpdate Proofs.BusRefine Proofs.BusLRU Proofs.BusStale Proofs.BusReader.
+Require Import Proofs.BusSpecFacts Proofs.BusSpecInv Proofs.BusRel Proofs.BusUpdate Proofs.BusRefine Proofs.BusInit Proofs.BusLRU Proofs.BusStale Proofs.BusReader.
 
 (* The statements of bus.py the property hinges on have the REPAIRED shape now (constants regenerated from the source on
    every run): config[label] on the max_persist == 1 path (71280f9), LRU position updated only after the read succeeded
@@ -34,6 +34,29 @@ Theorem C17_bus_refines_spec :
     m_run L F leqb lleb fkey st m0 ops = s_run L F leqb lleb fkey st (s_open L F st mp) ops.
 Proof. exact bus_refines_spec. Qed.
 Print Assumptions C17_bus_refines_spec.
+
+(* Bus.__init__ itself (the public constructor Bus(series, store=, max_persist=) and every Bus._derive): for ANY Series of
+   Frames / FrameDeferred whose Frames are the ones the store holds, the constructor refuses exactly when more Frames are
+   held than max_persist allows (ErrorInitBus), and otherwise the Bus answers EVERY history like the specification started
+   with the held labels as its cache, in index order (they are evicted in that order). *)
+Theorem C17_init_refines_spec :
+  forall (L F : Type) (leqb lleb : L -> L -> bool) (fkey : F -> Z),
+  (forall x y : L, leqb x y = true <-> x = y) ->
+  forall (st : store L F) (labels : list L) (slots : list (option F)) (mp : option Z) (r : Z),
+  NoDup labels -> length slots = length labels ->
+  (forall (l : L) (f : F), slot_of L F leqb labels slots l = Some f -> eager L F leqb st l = Some f) ->
+  (forall l : L, In l labels -> exists f fd : F, assoc L leqb l (st_content L F st) = Some (f, fd)) ->
+  st_recorded L F st = Some r ->
+  (forall k : Z, mp = Some k -> 1 <= k) ->
+  let held := loaded_labels L F labels slots in
+  if match mp with Some k => k <? Z.of_nat (length held) | None => false end
+  then m_init L F labels slots mp = Err "ErrorInitBus"
+  else exists m0 : mbus L F,
+         m_init L F labels slots mp = Ok m0 /\
+         forall ops : list (op L),
+           m_run L F leqb lleb fkey st m0 ops = s_run L F leqb lleb fkey st (mk_sbus L labels held mp) ops.
+Proof. exact init_refines. Qed.
+Print Assumptions C17_init_refines_spec.
 
 (* BOUNDED, every history (no domain restriction): never more than max_persist loaded flags *)
 Theorem C17_spec_bounded :
